@@ -106,7 +106,16 @@ def matched(c):
     return [e]
 
 
+def shifted_leaf(t):
+    if t["k"] == "SHL" and t.get("m") and 1 <= t["c"] <= 3 and t["a"]["k"] == "V64": return t["a"].get("r", 0)
+    return None
+
+
+def alias(ts): return len(ts) == 2 and shifted_leaf(ts[0]) is not None and shifted_leaf(ts[0]) == shifted_leaf(ts[1])
+
+
 def in_class(c, vals):
+    if alias(matched(c)): return False
     for t in matched(c):
         if not addend_ok(t): return False
         if t["k"] == "UX" and t.get("m") and not t.get("isc") and vals[t.get("r", 0)] > M32: return False
@@ -118,7 +127,7 @@ def frontend_image(c):
         k = t["k"]
         if k in ("SX", "XNU", "XNS", "SXW", "SHV"): return False
         if k == "SHL": return 0 <= t["c"] <= 3 and fs(t["a"])
-        if k == "ADD": return fs(t["a"]) and fs(t["b"])
+        if k == "ADD": return fs(t["a"]) and fs(t["b"]) and not alias([t["a"], t["b"]])
         return True
     return fs(c["e"])
 
@@ -179,15 +188,15 @@ CODES = {1: "the real function panics where the model does not (or the reverse)"
 
 
 def run(ck, binp, seed, tier, viol):
-    n = 1500 if tier == "quick" else 40000
+    n = 4000 if tier == "quick" else 60000
     rc, out = sh([binp, "-mode", "amode", "-seed", str(seed), "-n", str(n)], timeout=600)
     cases = [json.loads(l) for l in out.split("\n") if l.startswith("{")]
     if rc != 0 or not cases:
         viol("amode-process-fault", {"kind": "process-fault", "stream": "amode"}, {"rc": rc, "tail": out[-3000:]})
-        return 0, 0, {}
+        return 0, 0, {}, []
     dist = {"cases": len(cases), "enumerated_frontend_shapes": 0, "random_trees": 0, "in_frontend_image": 0, "valuations_in_class": 0, "valuations_outside_class": 0,
             "offset>=2^31": 0, "constant>=2^31_folded": 0, "materialised_constants": 0, "real_panics": 0,
-            "latent_wrong_outside_class": 0, "amode_kinds": {}, "top_shapes": {}}
+            "latent_wrong_outside_class": 0, "in_place_shift_of_an_operand_register": 0, "amode_kinds": {}, "top_shapes": {}}
     # ---- oracle (property on the implementation's observations only) ----
     for c in cases:
         dist["enumerated_frontend_shapes" if c["enum"] else "random_trees"] += 1
@@ -195,11 +204,12 @@ def run(ck, binp, seed, tier, viol):
         if c["off"] >= 1 << 31: dist["offset>=2^31"] += 1
         if any(t["k"] in ("UX", "K64") and (t.get("isc") or t["k"] == "K64") and t.get("m") and (t["c"] & M64) >= 1 << 31 for t in matched(c)): dist["constant>=2^31_folded"] += 1
         dist["materialised_constants"] += sum(1 for i in (c["ins"] or []) if i["Kind"] in ("imm", "zero"))
+        dist["in_place_shift_of_an_operand_register"] += sum(1 for i in (c["ins"] or []) if i["Kind"] == "shl")
         sh_ = shape(c["e"]); dist["top_shapes"][sh_] = dist["top_shapes"].get(sh_, 0) + 1
         sig = {"kind": "amode-wrong-address", "shape": sh_, "offset_top_bit": c["off"] >= 1 << 31}
         if c.get("panic"):
             dist["real_panics"] += 1
-            if all(addend_ok(t) for t in matched(c)):
+            if all(addend_ok(t) for t in matched(c)) and not alias(matched(c)):
                 viol("amode-panic", dict(sig, kind="amode-panic"), {"panic": c["panic"], "case": c})
             continue
         k = "imm(base)" if c["am"]["Kind"] == 1 else "imm(base,index,%d)" % (1 << c["am"]["Shift"])
@@ -231,4 +241,5 @@ def run(ck, binp, seed, tier, viol):
     distinct = len(set(json.dumps([c["e"], c["off"]], sort_keys=True) for c in cases))
     top = sorted(dist["top_shapes"].items(), key=lambda kv: -kv[1])
     dist["top_shapes"] = dict(top[:25]); dist["distinct_top_shapes"] = len(top)
-    return len(cases), distinct, dist
+    samples = [dict(stream="amode", tree=cq(c["e"]), offset=c["off"], real_amode=c["am"], inserted=c["ins"], panic=c.get("panic")) for c in cases[:1] + cases[-2:]]
+    return len(cases), distinct, dist, samples
